@@ -121,15 +121,23 @@ def stderr_excerpt(out_path, limit=6000):
     return "\n".join(keep)[:limit]
 
 
-def self_test_corrupt(ck, spec, lines, mutate, what):
-    """corrupt one recorded event; the oracle must flag exactly that line"""
-    idx, newline = mutate(lines)
+def self_test_corrupt(ck, spec, lines, mutate, what, flagged=()):
+    """corrupt one recorded event that the oracle accepted; the oracle must flag exactly that line.
+    Stateless traces (names, records): the corrupted event alone; cache: its execution from the preceding Reset."""
+    flagged = set(flagged)
+    idx, newline = mutate(lines, flagged)
     if idx is None:
+        if ck.violations:
+            # so much of the run was rejected that no accepted event of this kind is left: the verdict stands
+            ck.note("self-test (%s) not run: no accepted event to corrupt" % what)
+            return
         raise vf.Infra("self-test (%s): no event to corrupt" % what)
-    lo = max(0, idx - 3)
-    # keep executions whole for stateful traces: back up to the previous Reset
-    while lo > 0 and '"e":"Reset"' not in lines[lo - 1] and spec == "DnsCacheTrace":
-        lo -= 1
+    lo = idx
+    if spec == "DnsCacheTrace":
+        while lo > 0 and '"e":"Reset"' not in lines[lo - 1]:
+            lo -= 1
+        if any((i + 1) in flagged for i in range(lo, idx + 1)):
+            raise vf.Infra("self-test (%s): chosen execution already contains flagged events" % what)
     chunk = lines[lo:idx] + [newline]
     p = os.path.join(ck.work, "selftest_%s.ndjson" % spec)
     open(p, "w").write("\n".join(chunk) + "\n")
@@ -201,21 +209,19 @@ def part_names(ck, thorough, tlc_results):
     ck.note("names: %d layouts decoded by the real code, results differing from the Impl prediction: %d" % (len(cases), drift))
     ck.sample({"kind": "name layout", "case": cases[len(cases) // 3], "event": json.loads(lines[len(cases) // 3])})
     # oracle self-tests
-    def corrupt_loop(ls):
+    def corrupt_loop(ls, fl):
         for i, c in enumerate(cases):
-            if c["cls"] == "loop" and i > len(cases) // 2:
+            if c["cls"] == "loop" and i > len(cases) // 2 and (i + 1) not in fl:
                 e = json.loads(ls[i]); e["res"] = "ok"
                 return i, json.dumps(e)
         return None, None
 
-    def corrupt_wf(ls):
+    def corrupt_wf(ls, fl):
         for i, c in enumerate(cases):
-            if c["cls"] == "wf" and len(c["name"]) >= 2:
+            if c["cls"] == "wf" and len(c["name"]) >= 2 and (i + 1) not in fl:
                 e = json.loads(ls[i]); e["name"] = e["name"][:-1]
                 return i, json.dumps(e)
         return None, None
-    self_test_corrupt(ck, "DnsNameTrace", lines, corrupt_loop, "pointer loop reported as decoded")
-    self_test_corrupt(ck, "DnsNameTrace", lines, corrupt_wf, "well-formed name with a label missing")
     # verdicts
     groups = defaultdict(list)
     for b in bad:
@@ -235,6 +241,8 @@ def part_names(ck, thorough, tlc_results):
             "why.txt": "layout class %s (DnsNameOps.AbsClass) does not allow result %s; %d layouts of this kind\n" % (cls, res, len(bs))})
         ck.violation("decodeName: layout of Abs class '%s' ended in '%s' (%d layouts, e.g. cells %s cut %d)" % (
             cls, res, len(bs), cases[b - 1]["cells"], cases[b - 1]["cut"]), rp)
+    self_test_corrupt(ck, "DnsNameTrace", lines, corrupt_loop, "pointer loop reported as decoded", bad)
+    self_test_corrupt(ck, "DnsNameTrace", lines, corrupt_wf, "well-formed name with a label missing", bad)
 
 
 def rerun_single(ck, mode, case_line, spec, extra=()):
@@ -330,27 +338,30 @@ def part_records(ck, thorough, tlc_results):
     ck.nontrivial += sum(1 for p in plans if is_nontrivial_plan(p))
     ck.note("records: %d plans parsed by the real code (+ %d truncated prefixes, %d byte mutations); classes %s" % (
         len(plans), parses, muts * kinds.get("exact", 0), dict(kinds)))
-    first_exact = next(i for i, ln in enumerate(lines) if '"mm":"exact"' in ln and '"res":"ok"' in ln and '"lits":[0]' in ln)
-    ck.sample({"kind": "response plan", "event": json.loads(lines[first_exact])})
-    ck.sample({"kind": "query plan", "event": json.loads(next(ln for ln in lines if ln.startswith('{"e":"Query"') and '"ok"' in ln))})
+    first_exact = next((ln for ln in lines if '"mm":"exact"' in ln and '"res":"ok"' in ln and '"lits":[0]' in ln), None)
+    first_query = next((ln for ln in lines if ln.startswith('{"e":"Query"') and '"ok"' in ln), None)
+    if first_exact:
+        ck.sample({"kind": "response plan", "event": json.loads(first_exact)})
+    if first_query:
+        ck.sample({"kind": "query plan", "event": json.loads(first_query)})
 
-    def corrupt_typed(ls):
+    flagged = set(bad) | set(b for _, b in dev)
+
+    def corrupt_typed(ls, fl):
         for i, ln in enumerate(ls):
-            if ln.startswith('{"e":"Rec"') and '"mm":"exact"' in ln and '"res":"ok"' in ln:
+            if (i + 1) not in fl and ln.startswith('{"e":"Rec"') and '"mm":"exact"' in ln and '"res":"ok"' in ln:
                 e = json.loads(ln)
                 if e["typed"] and e["typed"][0][4]:
                     e["typed"][0][4][0] = e["typed"][0][4][0][:-1] + [7]
                     return i, json.dumps(e)
         return None, None
 
-    def corrupt_trunc(ls):
+    def corrupt_trunc(ls, fl):
         for i, ln in enumerate(ls):
-            if ln.startswith('{"e":"Trunc"'):
+            if (i + 1) not in fl and ln.startswith('{"e":"Trunc"'):
                 e = json.loads(ln); e["r"] = e["r"][:-1]
                 return i, json.dumps(e)
         return None, None
-    self_test_corrupt(ck, "DnsRecordsTrace", lines, corrupt_typed, "RDATA name of a typed record altered")
-    self_test_corrupt(ck, "DnsRecordsTrace", lines, corrupt_trunc, "a truncation without outcome")
     # verdicts
     groups = defaultdict(list)
     for b in bad:
@@ -388,6 +399,8 @@ def part_records(ck, thorough, tlc_results):
             "why.txt": "DnsRecordsOps.AllowedRec/AllowedQuery does not allow this outcome (class %s); %d plans in this group\n" % (str(k), len(bs))})
         ck.violation("DnsMessage::parse: plan class %s -> %s (%d plans; first: %s)" % (
             k[0], k[1], len(bs), line[:300]), rp)
+    self_test_corrupt(ck, "DnsRecordsTrace", lines, corrupt_typed, "RDATA name of a typed record altered", flagged)
+    self_test_corrupt(ck, "DnsRecordsTrace", lines, corrupt_trunc, "a truncation without outcome", flagged)
     devgroups = defaultdict(list)
     for d, b in dev:
         devgroups[d].append(b)
@@ -464,10 +477,12 @@ def cache_mc(ck, name, max_ops, questions, devs=(), view=True, emit=None, advanc
     return os.path.join(d, "MCDnsCache.tla"), cfg
 
 
-def ops_to_case(ck, ops):
-    for o in ops:
+def ops_to_case(ck, ops, pl0=None):
+    """driver case line; `pl` says in which sections / typed vectors of the DnsResult the TTLs of a Put are placed"""
+    ops = [dict(o) for o in ops]
+    for i, o in enumerate(ops):
         if o["op"] == "P":
-            o["pl"] = ck.rng.randint(1, 6)
+            o["pl"] = pl0 if (pl0 and i == 0) else ck.rng.randint(1, 6)
     return json.dumps({"dflt": DEFAULT_TTL, "ops": ops}, separators=(",", ":"))
 
 
@@ -511,9 +526,15 @@ def part_cache(ck, thorough, tlc_results):
     walks.sort(key=lambda s: json.dumps(s, sort_keys=True))
     if len(seqs) < 1000 or len(walks) < 100:
         raise vf.Infra("cache generators produced too few sequences (%d exhaustive, %d walks)" % (len(seqs), len(walks)))
-    allseq = [("probe:" + fl, h) for fl, h in probes] + [("exh", s) for s in seqs] + [("walk", s) for s in walks]
+    # placement sweep: an exhaustive sequence that starts with a Put carrying several TTLs is replayed once per placement
+    # of those TTLs (answer / authority / additional sections, typed vectors); everything else gets a seeded placement
+    allseq, case_lines = [], []
+    for kind, h in [("probe:" + fl, h) for fl, h in probes] + [("exh", s) for s in seqs] + [("walk", s) for s in walks]:
+        sweep = range(1, 7) if (kind == "exh" and h[0]["op"] == "P" and len(h[0]["ttls"]) >= 2) else [None]
+        for pl in sweep:
+            allseq.append((kind, h))
+            case_lines.append(ops_to_case(ck, h, pl))
     cp = os.path.join(ck.work, "cache_cases.txt")
-    case_lines = [ops_to_case(ck, h) for _, h in allseq]
     open(cp, "w").write("\n".join(case_lines) + "\n")
     outp = os.path.join(ck.work, "cache.ndjson")
     ck.note("drv_dns cache: " + run_drv("drv_dns", "cache", cp, outp, 8))
@@ -560,10 +581,15 @@ def part_cache(ck, thorough, tlc_results):
     ck.sample({"kind": "cache sequence (TLC simulation walk)", "ops": walks[0]})
     ck.sample({"kind": "probe = TLC counterexample of DnsCache.tla with Dev_TtlZeroCachedForDefault", "ops": probes[0][1]})
 
-    def corrupt_hit(ls):
+    flagged = set(bad) | set(b for _, b in dev)
+    flagged_exec = set(owner[b - 1] for b in flagged)
+
+    def corrupt_hit(ls, fl):
         # turn a miss at/after the deadline into a hit with the stored value
         last_put = {}
         for i, ln in enumerate(ls):
+            if owner[i] in flagged_exec:
+                continue
             e = json.loads(ln)
             if e["e"] in ("Begin", "Reset", "Clear"):
                 last_put = {}
@@ -575,7 +601,6 @@ def part_cache(ck, thorough, tlc_results):
                 e["hit"] = True; e["val"] = last_put[(e["q"][0], e["q"][2], e["q"][3])]
                 return i, json.dumps(e)
         return None, None
-    self_test_corrupt(ck, "DnsCacheTrace", lines, corrupt_hit, "an expired entry reported as a hit")
     groups = defaultdict(list)
     for b in bad:
         groups[("BAD", allseq[owner[b - 1]][0])].append(b)
@@ -599,6 +624,7 @@ def part_cache(ck, thorough, tlc_results):
             ck.classify(SIG_TTL0, "answer whose smallest TTL (or negative TTL) is 0 is served for the default TTL: " + msg, rp)
         else:
             ck.violation(msg, rp)
+    self_test_corrupt(ck, "DnsCacheTrace", lines, corrupt_hit, "an expired entry reported as a hit", flagged)
 
 
 # ------------------------------------------------------------------------------------------------ run
